@@ -1369,6 +1369,9 @@ class SVG:
         # https://github.com/googlefonts/picosvg/issues/269 remove empty subpaths *after* rounding
         self.remove_empty_subpaths(inplace=True)
         self.remove_unpainted_shapes(inplace=True)
+        # shapes that just went away (or were only templates in <defs>) may have
+        # been the last users of a gradient
+        self._remove_orphaned_gradients()
 
         violations = self.checkpicosvg(
             allow_text=allow_text, drop_unsupported=drop_unsupported
